@@ -13,7 +13,7 @@ The label of every abstract value is its history term, so rules compare strings 
 """
 from __future__ import annotations
 
-from .absint import AObj, BoundMethod, ClassRef, Interp, Opaque, OpaqueMethod, Tok, to_text, EnumV, FlagV, Sym
+from .absint import AObj, BoundMethod, ClassRef, Interp, Opaque, OpaqueMethod, Raised, Tok, to_text, EnumV, FlagV, Sym
 from .report import AnalysisError
 
 
@@ -39,6 +39,9 @@ class Runner:
         for b in node_bases:
             self.node_classes |= set(idx.subclasses(b))
         self.sym_compare = sym_compare
+        self.pure_like = set(idx.subclasses("Pure"))
+        self.fold = True  # simplify_* summaries fork into folded / not folded
+        self.flush_forks = False  # chk_hybrid_dep: fork into "no pending deps -> e" / "pending deps -> Sequence(deps + [e])"
         self.nodes = []
         self.stubs = {}  # (object label, method name) -> value | callable(args) : summaries of operand methods for one run
 
@@ -109,28 +112,40 @@ class Runner:
         interp.events.append(("add_op", args[0]))
         return args[0]
 
+    def need_pure(self, x):
+        """the real helpers read `.value_type`: anything that is not a Pure makes them raise AttributeError."""
+        if isinstance(x, AObj) and (x.cls in self.pure_like or "value_type" in x.fields):
+            return
+        if isinstance(x, Opaque):
+            return
+        raise Raised("AttributeError", f"{self.lab(x)} has no value_type")
+
     def s_promotion_cast(self, interp, args, kwargs):
         x = args[0]
-        return self.pure(f"Promo({self.lab(x)})")
+        self.need_pure(x)
+        return self.pure(f"Promo({self.lab(x)})", of=[x])
 
     def s_init_a_cast(self, interp, args, kwargs):
         t = args[0] if args else kwargs.get("target_type")
         x = args[1] if len(args) > 1 else kwargs.get("pure")
-        return self.pure(f"Conv({type_text(t)},{self.lab(x)})", vt=t if isinstance(t, AObj) else None)
+        self.need_pure(x)
+        return self.pure(f"Conv({type_text(t)},{self.lab(x)})", vt=t if isinstance(t, AObj) else None, of=[x])
 
     def s_cast_operands(self, interp, args, kwargs):
         imm = kwargs.get("immutable_a", args[0] if args else None)
         a, b = kwargs.get("a"), kwargs.get("b")
         if a is None or b is None or not isinstance(imm, bool):
             raise AnalysisError(f"cast_operands called with unsupported argument shape: {args} {list(kwargs)}")
+        self.need_pure(a)
+        self.need_pure(b)
         ta = a.fields.get("value_type") if isinstance(a, AObj) else None
         tb = b.fields.get("value_type") if isinstance(b, AObj) else None
         if ta is not None and ta is tb:
             return (a, b)  # one and the same type object: provably equal types, nothing to convert
         if imm:
-            return (a, self.pure(f"Conv(type({self.lab(a)}),{self.lab(b)})"))
+            return (a, self.pure(f"Conv(type({self.lab(a)}),{self.lab(b)})", of=[b]))
         c = f"Common({self.lab(a)},{self.lab(b)})"
-        return (self.pure(c + ".0"), self.pure(c + ".1"))
+        return (self.pure(c + ".0", of=[a]), self.pure(c + ".1", of=[b]))
 
     def s_chk_hybrid_dep(self, interp, args, kwargs):
         e = args[0]
@@ -139,6 +154,11 @@ class Runner:
         interp.events.append(("flush", e, o))
         if isinstance(e, AObj):
             e.fields["flushed"] = o
+        if self.flush_forks and isinstance(e, AObj) and interp.chooser.choose("pending effects reference the consumer"):
+            deps = AObj("Sequence", {}, label="pending-deps", opaque=True)
+            effs = [deps, e] if o != "SEQ_THEN_HYB" else [e, deps]
+            w = AObj("Sequence", {"effects": effs, "effect_ops": effs, "__ctor__": {"effects": effs}, "flushed": o, "wraps": e}, label=f"Flushed({self.lab(e)})", opaque=True)
+            return w
         return e
 
     def s_resolve_hybrid(self, interp, args, kwargs):
@@ -147,7 +167,7 @@ class Runner:
         return self.pure(f"Hyb({self.lab(h)})", hybrid=h)
 
     def _fold(self, interp, name):
-        if interp.chooser.choose(f"{name} folds"):
+        if self.fold and interp.chooser.choose(f"{name} folds"):
             return self.pure("folded", cls="Number")
         return None
 
